@@ -12,6 +12,15 @@ from .. import campaign as C
 from ..driver import analysis_check, standard_items
 
 
+def key_fn(it, res, fails):
+    """the known one-iteration lag (finding D9): every failing clause is an `aligned' one, i.e. all the
+    `lagged' clauses of the same trace hold"""
+    tags = [f.get("tag") or "" for f in fails]
+    if tags and all(t.startswith("aligned:") for t in tags):
+        return {"D9"}
+    return set()
+
+
 def main(tier, seed):
     quick = tier == "quick"
     items = [it for it in C.corpus_files() if "while true" not in it["text"]]
@@ -19,5 +28,5 @@ def main(tier, seed):
         C.generated(seed + 1, 20 if quick else 150, profile={"guard": "counter"}, ngoals=3, prefix="genc")
     items += gen_items
     return analysis_check("C09", tier, seed, items=items, want=["parsed", "term"], builders=[C.b_source, C.b_term],
-                          N=6 if quick else 9, timeout=120,
+                          N=6 if quick else 9, timeout=120, key_fn=key_fn,
                           assumptions=["the limit n -> infinity is not decided by the spec in this version; only the conditional sequence is"])
